@@ -7,6 +7,7 @@ stated on source paths (`Sel.src`, project relative).
 import PoetryVerif.Proofs.Select
 import PoetryVerif.Proofs.SelectUnpack
 import PoetryVerif.Proofs.SelectBoundary
+import PoetryVerif.Model.GitIgnore
 
 set_option linter.unusedSimpArgs false
 set_option linter.unusedVariables false
@@ -621,5 +622,27 @@ example : pkgInfoUnreached [⟨"p", none, none, Gen.defaultPackageFormats⟩] cx
     arcSafe [⟨"p", some "src", none, ["sdist", "wheel"]⟩] cx2Cfg = false ∧
     arcSafe [⟨"p", some "src", none, ["sdist", "wheel"]⟩] ⟨"p", "proj", "p", "1.0", [], [], [], [], [], false⟩ = true := by
   refine ⟨by decide +kernel, by decide +kernel, by decide +kernel⟩
+
+/-- **Directory patterns of `.gitignore` cover the whole subtree** (reference model of
+`git ls-files --others -i --exclude-standard`, Model/GitIgnore.lean): once a directory `d` is excluded — by `name/`,
+`/path/name/`, or any other line — every file below it is in the ignored listing, whatever deeper `.gitignore` files or
+negations say. -/
+theorem gitignore_directory_covers_subtree (files : List GitIgnore.IgnFile) (d rest : Path) (hd : d ≠ []) (hr : rest ≠ [])
+    (h : GitIgnore.excluded files d true = true) : GitIgnore.ignoredFile files (d ++ rest) = true := by
+  unfold GitIgnore.ignoredFile
+  rw [List.any_eq_true]
+  have hlen : 0 < d.length := List.length_pos_iff.mpr hd
+  have hrl : 0 < rest.length := List.length_pos_iff.mpr hr
+  refine ⟨d.length - 1, by simp [List.mem_range]; omega, ?_⟩
+  have e1 : d.length - 1 + 1 = d.length := by omega
+  have e2 : (d ++ rest).take d.length = d := by simp
+  rw [e1, e2]
+  have : decide (d.length < (d ++ rest).length) = true := by simp; omega
+  rw [this]; exact h
+
+example : GitIgnore.ignoredListing [⟨[], GitIgnore.parseFile "build/\n/p/data/\n!keep.txt\n"⟩]
+    [⟨[], true, ""⟩, ⟨["build"], true, ""⟩, ⟨["build", "x.o"], false, ""⟩, ⟨["p"], true, ""⟩, ⟨["p", "data"], true, ""⟩,
+     ⟨["p", "data", "keep.txt"], false, ""⟩, ⟨["p", "a.py"], false, ""⟩, ⟨["q", "data", "d.txt"], false, ""⟩] =
+    [["build", "x.o"], ["p", "data", "keep.txt"]] := by decide +kernel
 
 end Poetry.C09
